@@ -276,8 +276,12 @@ def main(ctx, replay):
     cov = C.proof_coverage(info, "C07")
     proof_broken = C.proof_status(info, "C07")
     cases = make_cases(rng, ctx.tier)
+    # an operator detour between acceptance and consumption (cancel + resume / requeue, by filter or by id list) in a third of the cases:
+    # what comes back is what was accepted
+    for k, c in enumerate(cases):
+        c["detour"] = ["", "cancel-resume", "", "cancel-requeue", "", "ids"][k % 6]
     payload = {"dir": os.path.join(ctx.scratch, "fid"), "par": 16,
-               "cases": [{k: c[k] for k in ("config", "backend", "forward", "pull_path", "reopen")} |
+               "cases": [{k: c[k] for k in ("config", "backend", "forward", "pull_path", "reopen")} | {"detour": c.get("detour", "")} |
                          {"requests": [{k: r[k] for k in ("route", "headers", "body_b64", "seq")} for r in c["requests"]],
                           "publish": [{k: p[k] for k in ("body", "seq")} for p in c["publish"]]} for c in cases]}
     rc, out, err = C.harness_run(info["hbin"], ["fidelity"], payload, timeout=3000)
